@@ -268,6 +268,7 @@ def run(ctx, args):
         two = rnd.sample(two, 300)
     with mp.Pool(16) as pool:
         ri = pool.map(iface_rows, jobs_i)
+        ri += pool.map(iface_rows, [(c, argseq_v) for c in chunks(rows_v, 64)])          # vector conversions against scalar conversions
         re_ = pool.map(e2e_rows, jobs_e)
         re_ += pool.map(twocall_rows, [(c, argseq_v) for c in chunks(rows_v, 16)])
         re_ += pool.map(import_rows, [(c, argseq) for c in chunks(two, 6)])
